@@ -17,7 +17,7 @@
                                     rest of sink script, driver call counters                      *)
 EXTENDS Emit, SequencesExt
 
-CONSTANTS MaxN, MaxScript, MaxPScript
+CONSTANTS MaxN, MaxScript, MaxPScript, MaxKScript
 Beh == {1, 2, 3, 4, 0, -4, -11, -5}     \* behaviours used in scripts of the N-octet read/write calls
 PBeh == {1, 2, 4, -4, -5}               \* ... of the plumbing calls (no zero-length returns there, see DESIGN.md)
 
@@ -52,7 +52,8 @@ SrcOctetCall(e) ==            \* octet source driver
        ELSE LET b == NextB(e.ss)
                 e2 == [e1 EXCEPT !.ss = Rest(e.ss)]
             IN IF b <= 0 THEN Ret(b, e2) ELSE Ret(1, [e2 EXCEPT !.pos = e.pos + 1])
-Tokens(from, k) == [i \in 1..k |-> from + i]       \* stream octets from+1 .. from+k
+Tok(i) == i % 256                                    \* value of stream octet number i
+Tokens(from, k) == [i \in 1..k |-> Tok(from + i)]  \* stream octets from+1 .. from+k
 SinkChunkCall(e, data) ==     \* chunk sink driver offered `data`
     LET b == NextB(e.ks)
         e1 == [e EXCEPT !.kc = e.kc + 1, !.ks = Rest(e.ks)]
@@ -70,8 +71,9 @@ SrcAdapt(e, want, got) ==     \* chunk read on an octet driver: exactly `want` o
     IF Len(got) = want THEN [rc |-> want, e |-> e, got |-> got]
     ELSE LET r == SrcOctetCall(e)
          IN IF Retry(r.rc) THEN SrcAdapt(r.e, want, got)
+            ELSE IF r.rc = ENODATA /\ got # <<>> THEN [rc |-> Len(got), e |-> r.e, got |-> got]   \* end after some octets
             ELSE IF r.rc < 0 THEN [rc |-> r.rc, e |-> r.e, got |-> got]
-            ELSE SrcAdapt(r.e, want, Append(got, r.e.pos))
+            ELSE SrcAdapt(r.e, want, Append(got, Tok(r.e.pos)))
 SrcOnce(kind, e, want) ==     \* source_get_chunk_atmost: one request
     IF kind = 1 THEN SrcAdapt(e, want, <<>>)
     ELSE LET r == SrcChunkCall(e, want)
@@ -106,7 +108,7 @@ PutOctet(kind, e, o) == IF kind = 1 THEN SinkOctetCall(e, o) ELSE SinkChunkCall(
 
 (* per-octet plumbing *)
 Cbc(sk, kk, e) == LET g == GetOctet(sk, e)
-                  IN IF g.rc < 0 THEN g ELSE PutOctet(kk, g.e, g.e.pos)
+                  IN IF g.rc < 0 THEN g ELSE PutOctet(kk, g.e, Tok(g.e.pos))
 RECURSIVE NCbc(_, _, _, _, _)
 NCbc(sk, kk, e, n, i) == IF i = n THEN Ret(n, e)
                          ELSE LET r == Cbc(sk, kk, e) IN IF r.rc < 0 THEN r ELSE NCbc(sk, kk, r.e, n, i + 1)
@@ -142,7 +144,7 @@ Result(api, sk, kk, n, L, R, ss, ks) ==
     LET e == Env0(L, ss, ks)
     IN CASE api = "get" -> IF n = 0 THEN <<EINVAL, 0>> ELSE GetObs(GetChunk(sk, e, n, <<>>), n)
          [] api = "getam" -> GetObs(SrcOnce(sk, e, n), n)
-         [] api = "geto" -> LET g == GetOctet(sk, e) IN <<g.rc, g.e.pos>> \o (IF g.rc > 0 THEN <<g.e.pos>> ELSE <<170>>)
+         [] api = "geto" -> LET g == GetOctet(sk, e) IN <<g.rc, g.e.pos>> \o (IF g.rc > 0 THEN <<Tok(g.e.pos)>> ELSE <<170>>)
          [] api = "put" -> IF n = 0 THEN <<EINVAL>> ELSE PutObs(PutChunk(kk, e, Tokens(0, n)))
          [] api = "putam" -> PutObs(SinkOnce(kk, e, Tokens(0, n)))
          [] api = "puto" -> PutObs(PutOctet(kk, e, 1))
@@ -156,7 +158,7 @@ Result(api, sk, kk, n, L, R, ss, ks) ==
 
 ---------------------------------------------------------------------------
 (* C17 on the model: evaluated per case *)
-IsPrefixOfStream(s) == \A i \in 1..Len(s) : s[i] = i
+IsPrefixOfStream(s) == \A i \in 1..Len(s) : s[i] = Tok(i)
 CaseOK(api, sk, kk, n, L, R, ss, ks) ==
     LET o == Result(api, sk, kk, n, L, R, ss, ks)
         rc == o[1]
@@ -202,7 +204,7 @@ Next == /\ phase[1] = "b" /\ ev' = Boot
               \/ /\ api = "puto" /\ \E ks \in Scripts(Beh, 1) : phase' = <<"c", api, 2, k, 1, 0, 0, <<>>, ks>>
               \/ /\ api \in PlApis
                  /\ \E kk \in {1, 2}, n \in 1..3, L \in {2, 4}, R \in {1, 2, 3},
-                       ss \in Scripts(PBeh, MaxPScript), ks \in Scripts(PBeh, MaxPScript) :
+                       ss \in Scripts(PBeh, MaxPScript), ks \in Scripts(PBeh, MaxKScript) :
                        /\ (api \in {"cbc", "ncbc", "dcbc"} => R = 1)
                        /\ (api \in {"cbc", "dcbc", "someaux", "daux"} => n = 1)
                        /\ phase' = <<"c", api, k, kk, n, L, R, ss, ks>>
